@@ -634,12 +634,18 @@ def fam_ovflate(rnd, i):
     queued behind the overflow marker, then drain: the late events must arrive after ErrEventOverflow."""
     w = "w1"
     k = 16384 + rnd.choice([6, 300, 2000])
-    steps = [fs("mkdir", ("d1",)), fs("create", ("d1", "n1")), new(w, 0), call(w, "add", ("d1",), "rel"),
-             fs("chmod", ("d1", "n1")), {"s": "rep", "k": k, "pat": [fs("chmod", ("d1", "n1")), fs("write", ("d1", "n1"))]}, obs(w)]
+    steps = [fs("mkdir", ("d1",)), fs("create", ("d1", "n1")), new(w, 0), call(w, "add", ("d1",), "rel")]
+    big = i % 2 == 1        # a second Watcher on the same directory whose buffer takes everything: it never overflows (C14)
+    if big:
+        steps += [new("w2", 65536), call("w2", "add", ("d1",), "rel")]
+    steps += [fs("chmod", ("d1", "n1")), {"s": "rep", "k": k, "pat": [fs("chmod", ("d1", "n1")), fs("write", ("d1", "n1"))]}, obs(w)]
     steps.append({"s": "drain", "w": w, "only": "ev", "max": rnd.choice([300, 2500, 2500, 5000])})
     steps += [obs(w), fs("chmod", ("d1",)), fs("create", ("d1", "late1")), fs("create", ("d1", "late2")), fs("unlink", ("d1", "late1")),
               drain(w), call(w, "watchlist"), obs(w), fs("create", ("d1", "n2")), call(w, "add", ("d1", "n2"), "rel"), fs("chmod", ("d1", "n2")),
-              call(w, "remove", ("d1", "n2"), "rel"), drain(w), obs(w), call(w, "close"), drain(w), obs(w)]
+              call(w, "remove", ("d1", "n2"), "rel"), drain(w), obs(w)]
+    if big:
+        steps += [drain("w2"), obs("w2"), call("w2", "close"), drain("w2"), obs("w2")]
+    steps += [call(w, "close"), drain(w), obs(w)]
     return steps
 
 
